@@ -76,6 +76,17 @@ replace verifharness => %s
 """
 
 
+def install_extracted(prep):
+    """Copy the facts extracted from the current /repo (by this preparation) into the Lean project."""
+    src = os.path.join(prep.get("genmod", ""), "extracted")
+    dst = os.path.join(LEAN, "InspectorModel", "Extracted")
+    if os.path.isdir(src):
+        for f in os.listdir(src):
+            a, b = os.path.join(src, f), os.path.join(dst, f)
+            if not os.path.exists(b) or open(a).read() != open(b).read():
+                shutil.copy(a, b)
+
+
 def lake_build(targets=()):
     """Build the Lean library and driver; returns (ok, log)."""
     p = run(["lake", "build"] + list(targets), cwd=LEAN, env=os.environ.copy(), check=False)
@@ -156,6 +167,17 @@ def prepare(tier, seed=1):
         p = run(["go", "build", "-o", os.path.join(bindir, "corr"), "."], cwd=gm, check=False)
         if p.returncode != 0:
             info["errors"].append("harness does not build: " + (p.stdout or "")[-3000:])
+        # 5. go/ssa facts about package-level writes (C20), over the library and every generated package
+        run(["go", "build", "-o", os.path.join(bindir, "globals"), "./cmd/globals"], cwd=HARNESS)
+        os.makedirs(os.path.join(gm, "extracted"), exist_ok=True)
+        p = run([os.path.join(bindir, "globals"), "-dir", gm, "-extra", "gen/decl_ins,gen/fresh/testobj_ins", "-out", os.path.join(gm, "extracted", "Globals.lean")], cwd=gm, check=False)
+        if p.returncode != 0:
+            info["errors"].append("globals extractor failed: " + (p.stdout or "")[-1500:])
+        # 6. race-enabled harness (C20)
+        p = run(["go", "build", "-race", "-o", os.path.join(bindir, "corr-race"), "."], cwd=gm, check=False, env=dict(GOENV, CGO_ENABLED="1"))
+        if p.returncode != 0:
+            info["errors"].append("race-enabled harness does not build: " + (p.stdout or "")[-1500:])
+        info["corr_race"] = os.path.join(bindir, "corr-race")
         info["alive"] = len(open(os.path.join(gm, "alive.txt")).read().split())
         info["corr"] = os.path.join(bindir, "corr")
         info["prepare_s"] = round(time.time() - t0, 1)
